@@ -83,4 +83,17 @@ MUTATIONS = [
                 "slur_stops",""",
          new="""                "tie_prev",
                 "slur_stops","""),
+    dict(prop="C09", name="da capo jumps to the second segment", file="partitura/score.py",
+         old="""                    "Navigation1_" + segment_info[part.first_point.t]["ID"]""",
+         new="""                    "Navigation1_" + segment_info[boundary_times[min(1, len(boundary_times) - 2)]]["ID"]"""),
+    dict(prop="C09", name="Score argument: update_ids forced on", file="partitura/score.py",
+         old="""            unfolded_part = unfold_part_maximal(
+                score, update_ids=update_ids, ignore_leaps=ignore_leaps
+            )""",
+         new="""            unfolded_part = unfold_part_maximal(
+                score, update_ids=True, ignore_leaps=ignore_leaps
+            )"""),
+    dict(prop="C09", name="Score argument of unfold_part_minimal is not copied", file="partitura/score.py",
+         old="""        unfolded_score = deepcopy(score)""",
+         new="""        unfolded_score = score"""),
 ]
